@@ -6,7 +6,7 @@ PAT=${1:-'seeded/*'}
 PROPS=$(python3 -c "import json;print(' '.join(c['property_id'] for c in json.load(open('/verif/MANIFEST.json'))['checks']))")
 one() {
   d=$1; id=$(basename $d); S=$(mktemp -d ${TMPDIR:-/tmp}/mu.XXXXXX)
-  cp -a /repo/. $S/ && git -C $S checkout -q -- . && git -C $S apply $d/patch.diff 2>/dev/null || { echo "$id APPLY-FAILED"; rm -rf $S; return; }
+  cp -a ${BASE:-/repo}/. $S/ && git -C $S checkout -q -- . && git -C $S apply $d/patch.diff 2>/dev/null || { echo "$id APPLY-FAILED"; rm -rf $S; return; }
   A=""
   for p in $PROPS; do
     VERIF_REPO=$S /verif/bin/vcheck -prop $p -out $S/.ev >/dev/null 2>&1; rc=$?
